@@ -51,6 +51,7 @@ func Parse(jsonPath string, config ...Config) (f func(src interface{}) ([]interf
 	parser.Execute()
 
 	root := parser.jsonPathParser.root
+	verifParsed(root)
 	return func(src interface{}) ([]interface{}, error) {
 		container := getContainer()
 		defer func() {
